@@ -5,11 +5,66 @@ import json, os, subprocess
 VERIF = os.path.dirname(os.path.dirname(os.path.abspath(__file__)))
 
 MC = "model_checking"
+POS_NOTE = "Trusted: refchess (src/refchess.h), re-validated by perft at the start of every run; positions restricted to the property's one-ply retro-legal quantifier."
 CHECKS = {
     # id: (category, technique, text, note, design_ref)
     "C01": (MC, "explicit-state enumeration (BFS graphs + exhaustive small-material placements) of the real move generator vs a reference rules model",
             "Every position of the enumerated spaces (reachable graphs from 43 seeds; all 3-men, 4-men and targeted 5-men placements incl. ep x pin, castling x attackers, double check) has its generated move list compared with an independent mailbox rules model; within those spaces the verdict is complete, outside them nothing is claimed.",
-            "Trusted: refchess (src/refchess.h), re-validated by perft at the start of every run; positions restricted to the property's one-ply retro-legal quantifier.", "3/C01"),
+            POS_NOTE, "3/C01"),
+    "C02": (MC, "explicit-state enumeration of every (position, legal move) edge of the same spaces, FEN after the real do_move vs reference make",
+            "Every edge of the enumerated graphs/placements plus a clock lattice: all six FEN fields after parse_uci+do_move must equal the reference model's successor.",
+            POS_NOTE + " Half-move clocks <= 150.", "3/C02"),
+    "C03": (MC, "explicit-state enumeration of edges and null moves + complete nested make/unmake trees on one engine object, snapshot oracle",
+            "Every edge/null move of the spaces and every node of complete make/unmake trees (depth 2-4 from 43 seeds): a snapshot of all public observables is compared before/after, at every unwind.",
+            "Snapshot = FEN, keys, board, piece sets/counts, bitboards, rights, ep, clocks, repetition/draw answers, static eval, generated moves.", "3/C03"),
+    "C04": (MC, "explicit-state enumeration with global identity->key / key->identity / pawn-placement->pawn-key maps over BFS graphs; neighbour-variant distinctness over placements",
+            "Incremental key == from-scratch key on every edge (also null moves, unmake); every transposition arrives with the same key; positions differing in one identity component get different keys (collisions re-tested under re-randomised tables).",
+            "Relative to one process (keys are random per process); accidental 64-bit collisions filtered by re-randomised re-test.", "3/C04"),
+    "C05": (MC, "exhaustive enumeration of UCI sessions x every stop point x single-entry table faults on the real Uci::loop/Search (ASan build), oracle = reference rules model",
+            "All sessions of four lists (go-limit alphabet x searchmoves; Search::stop() injected at EVERY node visit of small searches; session histories incl. stopped first searches; every probed key x engine-producible poison alphabet): exactly one legal bestmove, legal PVs, no sanitizer report.",
+            "Forked child per session, seeded zobrist tables, virtual clock (interposed steady_clock::now). Bounded to the seed positions and depths listed in evidence.", "3/C05"),
+    "C06": (MC, "stateless model checking: cooperative scheduler over hooked synchronisation/progress points, all placements of the reader thread's commands among N0 search-thread steps; separate free-running TSan pass",
+            "Every interleaving at hook granularity of stop/isready with thread start, go() start-up, iteration starts and node visits of the first iterations (4 scripts): exactly one bestmove within B search-thread steps after stop returned, readyok never needs the search thread; TSan on the real binary reports no race in engine code.",
+            "Scheduler serialises threads between hook points; weak-memory effects are outside it (TSan pass covers data races, by timing sampling). Promptness counted in search-thread steps.", "3/C06"),
+    "C07": (MC, "explicit-state enumeration: static predicates on every state; history predicates on every prefix of every game (all move sequences to depth N) of 11 arenas",
+            "Check/mate/stalemate/material predicates on every enumerated position; occurred-before / threefold / 50-move / is_draw on every prefix of all games up to the arena depth, against a history model with identity = placement+side+rights+ep.",
+            POS_NOTE, "3/C07"),
+    "C08": (MC, "exhaustive enumeration of small-material positions x depths x table histories on the real search; oracle = exhaustive AND/OR mate solver on the reference model",
+            "Every placement with a mate in one of 10-14 signatures x go depth 1..D x {fresh, warm, after stopped search}: bestmove mates; every final `score mate y` of >500k sessions is verified by the solver (y as an upper bound in moves, cap 3/4).",
+            "In-process sessions on the -Ofast build with tables reset to the freshly constructed state; announcements above the solver cap are counted as unverified (never as violations).", "3/C08"),
+    "C09": (MC, "exhaustive enumeration of depth limits 1..45,60,100,1000 x all searchmoves subsets x table pre-states x virtual-clock steps on the real search",
+            "Iterations reported are exactly 1..m with m <= d, bestmove inside searchmoves, exactly one bestmove, and every finite-limit search ends inside the node horizon.",
+            "Virtual clock advancing per read is the only environment assumption for time limits.", "3/C09"),
+    "C10": (MC, "exhaustive enumeration of a session grammar over boundary-driving commands against the real binary; sanitizer (ASan, bounds-strict, _GLIBCXX_ASSERTIONS, valgrind subset) as oracle",
+            "Every session [book]? ([ucinewgame]? position P . go G){1..2} over boundary positions (games of 0..1600 plies, 218 moves, ten of a kind, trivial draws for depth 39..1000) is run on the instrumented real binary.",
+            "Only the sanitizer checks that correspond to the statement are enabled; intra-object overflows are visible through bounds-strict only.", "3/C10"),
+    "C11": (MC, "exhaustive enumeration of the complete finite domain (107,648 square/occupancy pairs x irrelevant-bit patterns, all table entries) against coordinate geometry",
+            "Complete: every slider attack for every relevant occupancy (plus irrelevant-bit patterns and all two-bit full occupancies), every leaper/pawn/ray/line/castling table entry, shift<> and bit helpers.",
+            "Oracle = ray walk / geometric definitions in src/tablemc.cpp.", "3/C11"),
+    "C12": (MC, "exhaustive enumeration of all 662,704 KPK positions against an independent retrograde solve built from reference-model moves",
+            "Complete for the property's domain: both seams (bitbase probe after normalize, evaluator verdict) against a least-fix-point over the real game graph (KQK/KRK solved first).",
+            "Trusted: refchess moves; black-pawn positions as colour mirrors.", "3/C12"),
+    "C13": (MC, "exhaustive enumeration of small-material placements (3-, 4-men, specialised 5/6-men on restricted boards) and seed graphs, differential oracle score(p) == score(mirror p)",
+            "Every enumerated position with sufficient material is evaluated together with its colour mirror on the real evaluator.",
+            "Mirror from refchess; one long-lived evaluator (cache purity is C14).", "3/C13"),
+    "C14": (MC, "exhaustive enumeration of all operation sequences (length 4/5) over an alphabet constructed per process to collide in the pawn cache, vs a fresh evaluator; bounds on every evaluation of the spaces",
+            "Every sequence over {eval of 8 colliding positions, clear} equals the fresh-evaluator result; every evaluation of the listed spaces is strictly inside the non-mate range.",
+            "Alphabet found by exhaustive key search against the process's random keys.", "3/C14"),
+    "C15": (MC, "explicit-state enumeration of every (position, legal move) edge: predicates vs what the reference make does",
+            "move_is_capture / move_is_quiet / move_gives_check on every edge of the spaces (incl. promotions, ep, castling, discovered and double checks).", POS_NOTE, "3/C15"),
+    "C16": (MC, "explicit-state enumeration of edges/states (loaded and reached by play) + complete enumeration of all packed encodings",
+            "parse_uci(uci(m)) == m and text equals the oracle's; Position(fen()) identical in every field; all (from,to,promotion) triples, castling codes and create_moveinfo tuples decode to what was encoded.", POS_NOTE, "3/C16"),
+    "C17": (MC, "explicit-state enumeration of every generated move: SAN printer/parser round trip and per-position injectivity",
+            "parse_san(san(m)) == m for every generated move of the spaces (multi-piece disambiguation families, castling with check/mate, promotions, 218-move position); SAN strings of one position are pairwise distinct.", POS_NOTE, "3/C17"),
+    "C18": (MC, "explicit-state enumeration of positions (all rights subsets x ep geometries) vs a re-implementation of the published key layout over a frozen constant table",
+            "Every enumerated position's book key equals the key computed in the published flat layout; the nine published example keys are reproduced by both.",
+            "781 constants frozen from the pinned tree; 22 constants + the nine vectors independently known (DESIGN C18 honest limit).", "3/C18"),
+    "C19": (MC, "exhaustive enumeration of book files (0-3 records x every truncation), all 65,536 move codes, all weight vectors x all seeds in a range, on the real reader",
+            "Loaded table == complete records (direct view + contains); best = maximal weight; decoding of every move code in 4 positions; sampling never returns weight-0/foreign moves (exact) and matches weight shares within 5 sigma over the enumerated seed range.",
+            "Frequency oracle is a tolerance over an enumerated seed range; codes with promotion field 5-7 are outside the format.", "3/C19"),
+    "C20": (MC, "exhaustive enumeration of a stated lattice of clock states (7.7M / ~2e8 points) on the real function, -Ofast build",
+            "0 <= t <= 0.7 T and monotonicity along consecutive lattice times for every lattice point; both colours with a decoy opponent clock.",
+            "The lattice is what is decided; 1e16 tuples exist.", "3/C20"),
 }
 
 NOT_YET = {}
